@@ -346,13 +346,15 @@ def roundtrip(tier, seed):
     base_m = small["mixed_quad_tri_isolated"]
     orphan = mg.mk("leading_unused_nodes", [-40.0, -30.0] + list(base_m["lon"]), [50.0, 50.0] + list(base_m["lat"]),
                    [[v + 2 for v in row if v != mg.FILL] for row in base_m["faces"]])
-    meshes = meshes + [orphan]
+    # tall, narrow patches: more distinct latitudes than longitudes among the corners (also one across the antimeridian)
+    tall = [mg.quad_patch(2, 5, lon0=-20.0, lat0=-30.0, name="tall_quads2x5"), mg.quad_patch(1, 4, lon0=175.0, lat0=-20.0, name="tall_quads1x4_antimeridian")]
+    meshes = meshes + [orphan] + tall
     names = list(AXES)
     combos = [dict(zip(names, v)) for v in itertools.product(*AXES.values())]
     base = {n: AXES[n][0] for n in names}
     singles = [c for c in combos if sum(c[n] != base[n] for n in names) <= 1]
     per_mesh = 2 if tier == "quick" else 12
-    full_for = {"quads2x1@-20,-10", "mixed_quad_tri_isolated", "cube"} if tier == "quick" else ({m["name"] for m in meshes[:22]} | {"leading_unused_nodes"})
+    full_for = {"quads2x1@-20,-10", "mixed_quad_tri_isolated", "cube"} if tier == "quick" else ({m["name"] for m in meshes[:22]} | {"leading_unused_nodes", "tall_quads2x5"})
     _MEMO.clear()
     failures, samples = [], []
     cases, skipped = 0, 0
